@@ -37,6 +37,11 @@ def _normalised(ctx, fn, expr, flow, depth=0):
         vals = [p for w, p in ctx.res.bindings(fn).get(expr.id, []) if w == "value"]
         others = [w for w, p in ctx.res.bindings(fn).get(expr.id, []) if w != "value"]
         return bool(vals) and not others and all(_normalised(ctx, fn, v, flow, depth + 1) for v in vals)
+    if isinstance(expr, ast.Attribute) and flow is not None:
+        # an attribute / property of the receiver: every value it can hold is the result of a normaliser (None, the
+        # not-yet-computed state of a cached value, cannot pass a containment comparison)
+        t = [x for x in flow.term(expr, fn) if x != ("const", None)]
+        return bool(t) and all(x[0] == "ext" and x[1] in NORMALISERS for x in t)
     return False
 
 
@@ -68,6 +73,9 @@ def containment_test(ctx, fn, test, flow):
                     return (arg.args[0], a.func.value, True, a)
                 return ("weak", a.func.value, True, a)
     return None
+
+
+SAN_ROOT = {}      # sanitiser qual -> root expression of its (accepted) containment comparison
 
 
 def is_sanitiser(ctx, fn, flow):
@@ -129,8 +137,10 @@ def is_sanitiser(ctx, fn, flow):
                 why = "the function returns %s, not the normalised path %s that was tested" % (norm(r.value), norm(full))
                 continue
             ok = True
+            SAN_ROOT[fn.qual] = root
             break
         if not ok:
+            SAN_ROOT.pop(fn.qual, None)
             return False, why, set()
     return True, "every return is the normalised path, guarded by a containment test whose failing branch cannot reach it", set(fn.params)
 
@@ -245,6 +255,7 @@ def run(ctx):
             return frozenset([("pkgcall", gj[id(payload)], ())])
         return None
     flow = Flow(ctx.prog, ctx.res, stop_funcs=stops, opaque_funcs=list(sanitisers.values()), hook=hook if gj else None)
+    open_flow = Flow(ctx.prog, ctx.res, stop_funcs=stops)
     for jid, q in gj.items():
         pass
     if gj:
@@ -282,8 +293,13 @@ def run(ctx):
         for caller, call, bound in ctx.res.callsites_of(f):
             if caller is None or caller not in reach:
                 continue
-            rootp = f.params[0]
-            t = flow.term(bound[rootp], caller) if rootp in bound else frozenset()
+            # the root side of the sanitiser's containment comparison, as it evaluates for this call
+            root_expr = SAN_ROOT.get(q)
+            if root_expr is None:
+                ctx.undecided("C19.2", caller, "which directory the containment check at this call is relative to could not be evaluated", call)
+                continue
+            cenv = open_flow._bind_env(f, call, caller, {}, 0, f.cls is not None and not f.is_static)
+            t = open_flow.term(root_expr, f, cenv)
             bad = metafile_leaves(t)
             leaves = {x[2] for x in walk_terms(t) if x[0] == "param"}
             ok = not bad and any(p in ("dest", "destination", "args") for p in leaves)
